@@ -124,6 +124,21 @@ static void do_step(const json & st, const json & ctx) {
                 if (op == "CopyCtor") d.template emplace<F>(f); else d.template emplace<F>(std::move(f));
             }
         }, S("s"));
+    } else if (op == "Adopt") {
+        // a field built from the existing storage object of another field: named const, named non-const, or given away
+        slot_t & d = S("d");
+        const std::string how = a["how"];
+        std::visit([&](auto & f) {
+            using F = std::decay_t<decltype(f)>;
+            if constexpr (!std::is_same_v<F, std::monostate>) {
+                using OD = typename F::backend_t::owning_data_t;
+                if (how == "rvalue") { OD & o = const_cast<OD &>(f.backend()); d.template emplace<F>(covfie::make_parameter_pack(std::move(o))); }
+                else if constexpr (!std::is_same_v<F, H2>) {
+                    if (how == "const") { const OD & o = f.backend(); d.template emplace<F>(covfie::make_parameter_pack(o)); }
+                    else { OD & o = const_cast<OD &>(f.backend()); d.template emplace<F>(covfie::make_parameter_pack(o)); }
+                } else mismatch("replayer/adopt-not-offered", ctx);
+            }
+        }, S("s"));
     } else if (op == "CopyAssign" || op == "MoveAssign") {
         slot_t & d = S("d");
         std::visit([&](auto & f) {
@@ -337,7 +352,7 @@ static void drive(uint64_t seed, long execs, long nops, const char * path, bool 
             // pick an enabled operation
             for (int attempt = 0; attempt < 200; ++attempt) {
                 std::size_t s = r.below(3), d = r.below(3);
-                int op = (int)r.below(16);
+                int op = (int)r.below(18);
                 std::size_t vi = r.below(2);
                 json ev;
                 auto live = [&](std::size_t i) { return sh[i].st == "live"; };
@@ -365,6 +380,13 @@ static void drive(uint64_t seed, long execs, long nops, const char * path, bool 
                     ev = {{"e", nm}, {"args", {{"d", d + 1}, {"s", s + 1}}}};
                     do_step({{"op", nm}, {"args", ev["args"]}}, {});
                     sh[d] = sh[s]; if (op == 5) { sh[s].st = "moved"; follow(s, d); }
+                } else if ((op == 16 || op == 17) && sh[d].st == "dead" && live(s) && d != s) {
+                    const char * hows[] = {"const", "lvalue", "rvalue"};
+                    const char * how = hows[r.below(3)];
+                    if (sh[s].ty == "hilbert" && std::string(how) != "rvalue") continue;
+                    ev = {{"e", "Adopt"}, {"args", {{"d", d + 1}, {"s", s + 1}, {"how", how}}}};
+                    do_step({{"op", "Adopt"}, {"args", ev["args"]}}, {});
+                    sh[d] = sh[s]; if (std::string(how) == "rvalue") { sh[s].st = "moved"; kill(s); }   // which block survives is not promised
                 } else if ((op == 6 || op == 7) && assignable(d) && live(s) && sh[d].ty == sh[s].ty && sh[d].n == sh[s].n) {
                     const char * nm = op == 6 ? "CopyAssign" : "MoveAssign";
                     ev = {{"e", nm}, {"args", {{"d", d + 1}, {"s", s + 1}}}};
